@@ -281,4 +281,22 @@ func init() {
 		"[(*py.List).M__getitem__#1 == nil && (*py.List).M__getitem__#1'2 == nil && py.Lt#1 != nil && recv.recv.firstErr != nil && recv.recv.keyFunc == None && recv.recv.reverse] recv.s.l.M__getitem__(p1); recv.s.l.M__getitem__(p2); Lt((*py.List).M__getitem__#0'2, (*py.List).M__getitem__#0) -> false",
 		"[(*py.List).M__getitem__#1 == nil && (*py.List).M__getitem__#1'2 == nil && py.Lt#1 != nil && recv.recv.firstErr == nil && recv.recv.keyFunc == None && recv.recv.reverse] recv.s.l.M__getitem__(p1); recv.s.l.M__getitem__(p2); Lt((*py.List).M__getitem__#0'2, (*py.List).M__getitem__#0); recv.recv.firstErr = err! -> false",
 	}
+	// IMPORT_NAME: __import__ is taken from the frame's builtins and called with (name, the frame's globals, its locals or None, fromlist = TOS, level = TOS1); the module replaces TOS1; an error is handed on unchanged [ceval.c IMPORT_NAME]  []
+	pathSpec["vm|do_IMPORT_NAME"] = []string{
+		"[!(has(vm.frame.Builtins[\"__import__\"]))] ExceptionNewf(py.ImportError, \"__import__ not found\") -> err!",
+		"[!(u.(py.Int)) && has(vm.frame.Builtins[\"__import__\"]) && vm.callInternal#1 != nil && vm.frame.Locals != nil] callInternal(vm.frame.Builtins[\"__import__\"], composite[vm.frame.Code.Names[p2],vm.frame.Globals,vm.frame.Locals,slot0], nil, vm.frame) -> err!",
+		"[!(u.(py.Int)) && has(vm.frame.Builtins[\"__import__\"]) && vm.callInternal#1 != nil && vm.frame.Locals == nil] callInternal(vm.frame.Builtins[\"__import__\"], composite[vm.frame.Code.Names[p2],vm.frame.Globals,py.None,slot0], nil, vm.frame) -> err!",
+		"[!(u.(py.Int)) && has(vm.frame.Builtins[\"__import__\"]) && vm.callInternal#1 == nil && vm.frame.Locals != nil] callInternal(vm.frame.Builtins[\"__import__\"], composite[vm.frame.Code.Names[p2],vm.frame.Globals,vm.frame.Locals,slot0], nil, vm.frame) -> nil",
+		"[!(u.(py.Int)) && has(vm.frame.Builtins[\"__import__\"]) && vm.callInternal#1 == nil && vm.frame.Locals == nil] callInternal(vm.frame.Builtins[\"__import__\"], composite[vm.frame.Code.Names[p2],vm.frame.Globals,py.None,slot0], nil, vm.frame) -> nil",
+		"[has(vm.frame.Builtins[\"__import__\"]) && u.(py.Int) && vm.callInternal#1 != nil && vm.frame.Locals != nil] callInternal(vm.frame.Builtins[\"__import__\"], composite[vm.frame.Code.Names[p2],vm.frame.Globals,vm.frame.Locals,slot0,slot1], nil, vm.frame) -> err!",
+		"[has(vm.frame.Builtins[\"__import__\"]) && u.(py.Int) && vm.callInternal#1 != nil && vm.frame.Locals == nil] callInternal(vm.frame.Builtins[\"__import__\"], composite[vm.frame.Code.Names[p2],vm.frame.Globals,py.None,slot0,slot1], nil, vm.frame) -> err!",
+		"[has(vm.frame.Builtins[\"__import__\"]) && u.(py.Int) && vm.callInternal#1 == nil && vm.frame.Locals != nil] callInternal(vm.frame.Builtins[\"__import__\"], composite[vm.frame.Code.Names[p2],vm.frame.Globals,vm.frame.Locals,slot0,slot1], nil, vm.frame) -> nil",
+		"[has(vm.frame.Builtins[\"__import__\"]) && u.(py.Int) && vm.callInternal#1 == nil && vm.frame.Locals == nil] callInternal(vm.frame.Builtins[\"__import__\"], composite[vm.frame.Code.Names[p2],vm.frame.Globals,py.None,slot0,slot1], nil, vm.frame) -> nil",
+	}
+	// IMPORT_FROM: the attribute named by the operand is read from the module on top of the stack, which stays there, and pushed; only AttributeError becomes ImportError, any other error is handed on unchanged [ceval.c IMPORT_FROM]  []
+	pathSpec["vm|do_IMPORT_FROM"] = []string{
+		"[!(py.IsException(py.AttributeError, err!)) && py.GetAttrString#1 != nil] GetAttrString(slot0, vm.frame.Code.Names[p2]); IsException(py.AttributeError, err!) -> err!",
+		"[py.GetAttrString#1 != nil && py.IsException(py.AttributeError, err!)] GetAttrString(slot0, vm.frame.Code.Names[p2]); IsException(py.AttributeError, err!); ExceptionNewf(py.ImportError, \"cannot import name %s\", vm.frame.Code.Names[p2]) -> err!",
+		"[py.GetAttrString#1 == nil] GetAttrString(slot0, vm.frame.Code.Names[p2]) -> nil",
+	}
 }
